@@ -54,6 +54,9 @@ OBLIGATIONS += _trk("evt", "event_readers", "EventAccessTracker", "src/react/eve
 OBLIGATIONS += _trk("ent", "entity_reaction_readers", "EntityReactionAccessTracker",
                     "src/react/entity_reaction_readers.rs", ["mutation", "entity_event"], drain=False)
 for _o in OBLIGATIONS:
+    if _o["id"] in ("sysevt.step", "evt.step", "ent.step", "desp.step"):
+        _o["props"].append("C09")      # which delivery a replayed run takes effect as is decided by the tracker's per-system FIFO
+for _o in OBLIGATIONS:
     if _o["id"] in ("ent.step", "ent.witness"):
         _o["props"].append("C16")      # EntityLocal picks the local data of the entity this tracker exposes: one shared system, several entities
 OBLIGATIONS += _trk("desp", "despawn_reader", "DespawnAccessTracker", "src/react/despawn_reader.rs", ["despawn"],
@@ -867,7 +870,7 @@ _QUICK_ONLY_FOR = {
     "rc.insertion_2_1_1_1": ["C01"], "rc.mutation_2_1_1_1": ["C01", "C14"],
     "rc.revoke_component_1_0_1": ["C06", "C01", "C07", "C14"], "rc.revoke_component_1_0_0": [],
     "rc.entity_event_dead": [], "rc.revoke_despawn_2_1": ["C06", "C18"], "rc.revoke_broadcast_2_1": ["C06", "C01"],
-    "sysevt.drain3": ["C12"], "evt.drain3": ["C03"], "desp.step": ["C12", "C03"], "ent.step": ["C12", "C03", "C16"],
+    "sysevt.drain3": ["C12"], "evt.drain3": ["C03"], "desp.step": ["C12", "C03"], "ent.step": ["C12", "C03", "C16"], "sysevt.step": ["C12", "C03", "C04", "C11", "C09"], "evt.step": ["C12", "C03", "C04", "C11"],
     "desp.witness": ["C12"], "ent.witness": ["C12"], "bundle.reactor_types": ["C06", "C16"],
     "rc.broadcast_0_2": ["C01", "C05"], "rc.broadcast_2_1": ["C01", "C05", "C03"],
     # runner steps / command application / setup-cleanup pairs (measured 25-150 s each)
